@@ -95,7 +95,12 @@ def run_case(rec, Kx, Ky, N, per, orient, axis, op, target, ri, li, seed, pre=No
             return
     else:
         D, table, kinds = pre
+    # per-axis rules: the operated axis gets RULES[ri], the other axis the next one with another fill value
     rule, fv = RULES[ri]
+    other = "Y" if axis == "X" else "X"
+    orule, ofv = RULES[(ri + 1) % len(RULES)]
+    gb = {axis: rule, other: orule}
+    gf = {axis: fv, other: ofv + 20.0}
     layout = LAYOUTS[li]
     G = global_field(D.W, D.H, seed)
     F = D.cut(G)
@@ -107,7 +112,7 @@ def run_case(rec, Kx, Ky, N, per, orient, axis, op, target, ri, li, seed, pre=No
     if ri % 2:
         table = {f: dict(reversed(list(table[f].items()))) for f in reversed(list(table))}
     try:
-        g = make_grid(D.nf, N, table if any(table[f] for f in table) else None, rule, fv)
+        g = make_grid(D.nf, N, table if any(table[f] for f in table) else None, gb, gf)
     except Exception as e:
         rec.violation("constructor", "raise:" + exc_sig(e), case, "a Grid", f"{type(e).__name__}: {e}"[:200])
         return
